@@ -106,6 +106,29 @@ theorem decExportSec_encExportSec (es : List Export) (hl : U32 es.length)
     simp [encExport, decExport, List.append_assoc, decName_encName' n (h _ hx).1, decU32_encU32' i (h _ hx).2]
   exact whole_of _ _ _ (decVec_encVec' encExport decExport es hl he [])
 
+/-! ## block type index (multi-value block/loop/if): signed s33 -/
+
+/-- a type index used as a block type is written with the SIGNED encoder and read back by the s33 decoder
+(C19's `decodeS33_encS`), for every index and whatever follows -/
+theorem blocktype_index_roundtrip (i : Nat) (h : U32 i) (rest : Bytes) :
+    decBlockTypeIdx (encBlockTypeIdx i ++ rest) = some (i, rest) := by
+  unfold decBlockTypeIdx encBlockTypeIdx
+  have hi : (i : Int) < 2 ^ 32 := by unfold U32 at h; exact_mod_cast h
+  rw [decodeS33_encS (i : Int) (by omega) hi rest]
+  simp
+
+/-- the unsigned form is NOT a substitute: index 64 written as a u32 is the single byte 0x40, which the s33
+decoder reads as −64 (the byte of the empty block type) -/
+theorem blocktype_index_unsigned_form_wrong :
+    encU32 64 = [0x40] ∧ decodeS33 (encU32 64) = .ok (-64, 1) ∧ decBlockTypeIdx (encU32 64) = none := by
+  have e : encU32 64 = [0x40] := encU32_small 64 (by omega)
+  refine ⟨e, ?_, ?_⟩
+  · rw [e]; simp [decodeS33, decS33loop]
+  · unfold decBlockTypeIdx
+    rw [e]; simp [decodeS33, decS33loop]
+
+example : U32 71 := by unfold U32; omega
+
 /-! ## label resolution -/
 
 /-- a named branch target resolves to the NEAREST enclosing block carrying that label -/
